@@ -17,13 +17,21 @@ def _fr(p):
 
 
 def replay(rec, ctx):
+    viol = []
+    for e in rec.get("unit_exps", [0]):
+        viol += replay_at(rec, 10.0 ** e, e)
+    return viol
+
+
+def replay_at(rec, u, e):
+    """the polygon measured in units of u metres: area ~ u^2, centroid ~ u, volume ~ u^3 (Voxel.tla: UnitExps)"""
     from cherab.tools.inversions.voxels import AxisymmetricVoxel
     viol = []
-    verts = [(float(a), float(b)) for a, b in rec["vertices"]]
-    area = rec["twice_area"] / 2.0
-    cr, cz = float(_fr(rec["cr"])), float(_fr(rec["cz"]))
-    vol = float(_fr(rec["volume_over_pi"])) * math.pi
-    tag = f"poly{rec['poly']}"
+    verts = [(float(a) * u, float(b) * u) for a, b in rec["vertices"]]
+    area = rec["twice_area"] / 2.0 * u * u
+    cr, cz = float(_fr(rec["cr"])) * u, float(_fr(rec["cz"])) * u
+    vol = float(_fr(rec["volume_over_pi"])) * math.pi * u ** 3
+    tag = f"poly{rec['poly']}" + (f"[unit-1e{e}]" if e else "")
 
     def bad(what, detail):
         viol.append({"sig": f"{tag}:{what}", "detail": f"{detail} | rotation {rec['rot']} reversed {rec['rev']} vertices {rec['vertices']}"})
@@ -36,12 +44,12 @@ def replay(rec, ctx):
         if not core.close(v.cross_sectional_area, area, rtol=1e-12):
             bad("area-differs", f"{v.cross_sectional_area!r} vs {area!r}")
         c = v.cross_section_centroid
-        if not (core.close(c.x, cr, rtol=1e-12, atol=1e-14) and core.close(c.y, cz, rtol=1e-12, atol=1e-14)):
+        if not (core.close(c.x, cr, rtol=1e-12, atol=1e-14 * u) and core.close(c.y, cz, rtol=1e-12, atol=1e-14 * u)):
             bad("centroid-differs", f"({c.x!r}, {c.y!r}) vs ({cr!r}, {cz!r})")
         if not core.close(v.volume, vol, rtol=1e-12):
             bad("volume-differs", f"{v.volume!r} vs {vol!r}")
-        got = sorted((round(p.x, 12), round(p.y, 12)) for p in v.vertices)
-        if got != sorted(verts):
+        got = sorted((p.x, p.y) for p in v.vertices)
+        if not core.close([q for p in got for q in p], [q for p in sorted(verts) for q in p], rtol=1e-12, atol=1e-12 * u):
             bad("vertices-differ", str(got))
     # the caller fills one float64 scratch array per cell and re-uses it: a voxel keeps reporting the polygon it was built from
     # (whether the constructor may reorder the caller's array in place is not something the statement settles)
@@ -49,10 +57,10 @@ def replay(rec, ctx):
     buf = np.array(verts, dtype=np.float64)
     try:
         v1 = AxisymmetricVoxel(buf)
-        buf[:] = np.array(verts, dtype=np.float64) * 0.5 + np.array([20.0, 3.0])        # the next cell: same shape, half the size, elsewhere
+        buf[:] = np.array(verts, dtype=np.float64) * 0.5 + np.array([20.0, 3.0]) * u        # the next cell: same shape, half the size, elsewhere
         v2 = AxisymmetricVoxel(buf)          # noqa: F841  (the next cell, built from the same buffer)
         c1 = v1.cross_section_centroid
-        if not (core.close(v1.cross_sectional_area, area, rtol=1e-12) and core.close(v1.volume, vol, rtol=1e-12) and core.close(c1.x, cr, rtol=1e-12, atol=1e-14)):
+        if not (core.close(v1.cross_sectional_area, area, rtol=1e-12) and core.close(v1.volume, vol, rtol=1e-12) and core.close(c1.x, cr, rtol=1e-12, atol=1e-14 * u)):
             bad("voxel-follows-later-edits-of-the-callers-array", f"area {v1.cross_sectional_area!r} (was {area!r}), volume {v1.volume!r} (was {vol!r}) after the caller re-used its vertex array")
     except Exception as ex:      # noqa: BLE001
         bad(f"ndarray-vertices-raised-{type(ex).__name__}", repr(ex)[:200])
